@@ -142,9 +142,23 @@ func c16trace(args []string) int {
 	select {}
 }
 
+// tracer controller on the vfork launch path (ptrace without a filter or callback): the child is held at the verif child
+// gate (before setsid, i.e. before PTRACE_TRACEME) while the controller's launching thread is suspended in vfork
+func c16vfork(args []string) int {
+	nonce := os.Getenv("C16_NONCE")
+	devnull()
+	forkexec.VerifChildGateFd = 3 // read end of the gate pipe, inherited from the check
+	ch := &forkexec.Runner{Args: []string{probe("tree"), nonce, "p+", "pause"}, Env: []string{}, Files: stdioNull(), Ptrace: true}
+	t := ptracer.Tracer{Handler: &c16stepper{k: -1}, Runner: ch, Limit: bigLimit}
+	t.Trace(context.Background())
+	fmt.Println("DONE")
+	select {}
+}
+
 func init() {
 	aux["c16ctl"] = c16ctl
 	aux["c16trace"] = c16trace
+	aux["c16vfork"] = c16vfork
 	registry["C16"] = func(tier string) *mc.Spec {
 		spec := &mc.Spec{
 			Level: "fault_enumeration",
@@ -160,8 +174,12 @@ func init() {
 		spec.Init = func() error { devnull(); return nil }
 		spec.Fini = cleanupTmp
 		spec.Body = func(x *mc.X) {
-			if x.Choose(2, "family") == 1 {
+			switch x.Choose(3, "family") {
+			case 1:
 				c16tracer(x, tier)
+				return
+			case 2:
+				c16vforkLaunch(x)
 				return
 			}
 			op := c16ops[x.Choose(len(c16ops), "op")]
@@ -343,4 +361,72 @@ func c16tracer(x *mc.X, tier string) {
 		x.Failf("C16/tracer/survives"+phase, "tracing process killed at tracer step %d%s: traced processes %v are still alive after the horizon", k, phase, untrusted())
 	}
 	killNonce(nonce)
+}
+
+// c16vforkLaunch: the tracing process dies while its child has been forked (vfork path) but has not yet asked to be
+// traced; the child is then released and must not go on to run the target.
+func c16vforkLaunch(x *mc.X) {
+	release := x.Pick("child-released", "after-the-tracer-died", "never(only-the-kill)")
+	x.Note("crash", "tracer on the vfork launch path killed between fork and the child's PTRACE_TRACEME; child "+release)
+	if x.Dry() {
+		return
+	}
+	nonce := newNonce()
+	self, _ := os.Executable()
+	pr, pw, err := os.Pipe()
+	if err != nil {
+		x.Failf("C16/harness", "%v", err)
+		return
+	}
+	defer pw.Close()
+	cmd := exec.Command(self, "c16vfork")
+	cmd.Env = append(os.Environ(), "C16_NONCE="+nonce)
+	cmd.ExtraFiles = []*os.File{pr}
+	cmd.SysProcAttr = &syscall.SysProcAttr{Setsid: true}
+	cmd.Stderr = os.Stderr
+	if err := cmd.Start(); err != nil {
+		x.Failf("C16/harness", "%v", err)
+		return
+	}
+	pr.Close()
+	defer func() { cmd.Process.Kill(); cmd.Wait() }()
+	// the forked child shows up as a child of the controller (still running this binary, parked at the gate)
+	child := 0
+	waitUntil(horizon, func() bool {
+		for p := range childPids(cmd.Process.Pid) {
+			child = p
+		}
+		return child != 0
+	})
+	if child == 0 {
+		x.Failf("C16/harness", "the controller never forked")
+		return
+	}
+	time.Sleep(20 * time.Millisecond)
+	syscall.Kill(cmd.Process.Pid, syscall.SIGKILL)
+	cmd.Wait()
+	if release == "after-the-tracer-died" {
+		pw.Write([]byte{1})
+	}
+	gone := waitUntil(horizon, func() bool { return !pidAlive(child) && len(scanNonce(nonce)) == 0 })
+	x.Distinct(fmt.Sprint("vfork", release, gone))
+	x.Outcome(fmt.Sprintf("vfork-launch:gone=%v", gone))
+	if !gone {
+		x.Failf("C16/tracer/survives/vfork-launch", "tracer killed while its vfork child had not yet asked to be traced (child %s): child %d is %s, target processes alive: %v", release, child, procState(child), scanNonce(nonce))
+		syscall.Kill(child, syscall.SIGKILL)
+		killNonce(nonce)
+	}
+}
+
+func childPids(pid int) map[int]bool {
+	out := map[int]bool{}
+	ents, _ := os.ReadDir(fmt.Sprintf("/proc/%d/task", pid))
+	for _, e := range ents {
+		b, _ := os.ReadFile(fmt.Sprintf("/proc/%d/task/%s/children", pid, e.Name()))
+		for _, f := range strings.Fields(string(b)) {
+			c, _ := strconv.Atoi(f)
+			out[c] = true
+		}
+	}
+	return out
 }
